@@ -27,7 +27,9 @@ KINDS: dict[str, Any] = {
 }
 
 
-def execute(ex: Execution, kind: str, backend: str, idle_timeout: float, max_crash: int) -> tuple[Any, list[Any]]:
+def execute(ex: Execution, kind: str, backend: str, idle_timeout: float, max_crash: int, busy_ticks: int = 0) -> tuple[Any, list[Any]]:
+    """``busy_ticks``: that many ticks of a process may keep its loop busy (slow persistence, a long pause) until after the
+    next wake-up the run has scheduled for itself - the timer comes due while the run is in memory but not looking"""
     spec = KINDS[kind]
     # fault choice first: 0 = the process keeps running, k = it stops right after the k-th persisted tick
     k = ex.choose(max_crash + 1, "process_stop", ["never"] + [f"after_tick_{i}" for i in range(1, max_crash + 1)])
@@ -43,7 +45,7 @@ def execute(ex: Execution, kind: str, backend: str, idle_timeout: float, max_cra
     def horizon_filter(loop: VLoop) -> Any:
         return lambda h: bool(loop.timer_deadlines()) and loop.timer_deadlines()[0] < 1000
 
-    e = EngineExec(ex, RunConfig(max_actions=60, allow_time=True))
+    e = EngineExec(ex, RunConfig(max_actions=60, allow_time=True, busy_ticks=busy_ticks))
     e.__enter__()
     crashed = False
     vt = 0.0
@@ -77,7 +79,7 @@ def execute(ex: Execution, kind: str, backend: str, idle_timeout: float, max_cra
     store2 = store if backend == "memory" else SqliteWorkflowStore(path, poll_interval=1.0, auto_migrate=False)
     loop2 = VLoop()
     loop2.vt = vt
-    with EngineExec(ex, RunConfig(max_actions=60, allow_time=True), loop=loop2) as e2:
+    with EngineExec(ex, RunConfig(max_actions=60, allow_time=True, busy_ticks=busy_ticks), loop=loop2) as e2:
         ticks = ih.tick_types(loop2, store2)
         timer_pending_at_crash = False
         h0 = ih.query_handler(loop2, store2)
@@ -106,6 +108,8 @@ def execute(ex: Execution, kind: str, backend: str, idle_timeout: float, max_cra
         w = {"timer": kind, "restarted_while_timer_pending": bool(crashed and timer_pending_at_crash), "released_with_timer_pending": rel_pending != "none",
              "handler_marked_idle_at_restart": bool(crashed and idle_at_restart),
              "idle_timeout_vs_delay": ("shorter" if idle_timeout < D else "equal" if idle_timeout == D else "longer")}
+        if busy_ticks:
+            w["loop_busy_past_the_due_time"] = bool(getattr(e.h, "busy_until", 0.0) or getattr(e2.h, "busy_until", 0.0))
         desc = (f"[{backend}] {kind} delay={D} idle_timeout={idle_timeout} crash_after_tick={crash_at} schedule {ex.labels}: at the horizon (t={loop2.vt}) "
                 f"handler status={getattr(hd, 'status', None)} result={got!r}, expected completed {spec['expected']!r}; released={released} ({rel_pending})")
         if not (e.capped or e2.capped):
@@ -126,13 +130,18 @@ def programs(tier: str) -> list[Program]:
             for it in (D / 4, D, 4 * D):
                 ps.append(Program(f"{kind}/{backend}/idle_timeout={it}", {"kind": kind, "backend": backend, "idle_timeout": it},
                                   (lambda ex, kind=kind, backend=backend, it=it: execute(ex, kind, backend, it, 7)), max_dev=(3 if q else 5)))
+            # the timer comes due while the run is in memory but its loop is busy (a slow tick), with and without a restart
+            for it in ((4 * D,) if q else (D, 4 * D)):
+                ps.append(Program(f"{kind}/{backend}/idle_timeout={it}/slow_tick", {"kind": kind, "backend": backend, "idle_timeout": it, "busy_ticks": 1},
+                                  (lambda ex, kind=kind, backend=backend, it=it: execute(ex, kind, backend, it, 7, busy_ticks=1)),
+                                  max_dev=(3 if q else 5)))
     return ps
 
 
 RULE = ("a step waiting out a retry delay D=8 s and a step whose wait_for_event timeout T=8 s is pending, on the real server stack over "
         "MemoryWorkflowStore / SqliteWorkflowStore with idle_timeout in {D/4, D, 4D} x no restart / process stop after each of the first 7 "
         "persisted ticks + restart on the surviving store x all orders of idle-timer, release and retry / timeout timer firings up to "
-        "the horizon (every timer below 1000 s fired); at the horizon the handler must be completed with the retried / timed-out "
+        "the horizon (every timer below 1000 s fired), plus programs in which one tick keeps the loop busy until after the pending timer's due time; at the horizon the handler must be completed with the retried / timed-out "
         "result; non-trivial = at least one deviation or a restart")
 
 
